@@ -25,7 +25,11 @@ from vinegar.data_source import text_file as TF
 logging.getLogger("vinegar").setLevel(logging.CRITICAL + 1)
 
 ERR = {"ValueError": 1, "TypeError": 2, "FileNotFoundError": 3, "UnicodeDecodeError": 4, "AttributeError": 5,
-       "IsADirectoryError": 6, "KeyError": 7, "IndexError": 8, "RuntimeError": 9}
+       "IsADirectoryError": 6, "KeyError": 7, "IndexError": 8, "RuntimeError": 9, "PermissionError": 10, "OSError": 11,
+       "BlockingIOError": 12}
+FAULT_EXC = {"PermissionError": lambda: PermissionError(13, "Permission denied (injected)"),
+             "OSError": lambda: OSError(5, "Input/output error (injected)"),
+             "BlockingIOError": lambda: BlockingIOError(11, "Resource temporarily unavailable (injected)")}
 ACT = {"error": 0, "ignore": 1, "warn": 2}
 
 
@@ -43,10 +47,11 @@ FAMILIES = {
         "sid": ("id", [], False),
         "vars": [("x", "x", [], False, False),
                  ("n:y", "y", [("string.split", ",")], False, False),
-                 ("n:u", "y", [("string.to_upper", None)], False, True)],
-        "lines": ["a;1", "b;1", "a;2", "b;2;p,q", "c;1;p,q", "c;;p", "a;1;p,q", "b;;q,p", "#x", "", "bad line",
+                 ("n:u", "y", [("string.to_upper", None)], False, True),
+                 ("n:w", "x", [("string.split", None)], False, False)],      # "" -> [] (falsy, unhashable)
+        "lines": ["a;0", "b;", "a;1", "b;1", "a;2", "b;2;p,q", "c;1;p,q", "c;;p", "a;1;p,q", "b;;q,p", "#x", "", "bad line",
                   "a;1\x0c", "#\x85x", "c;2;p", "b;9", "b;9;p,q", "a;2;p,q"],
-        "finds": [("x", "1"), ("x", "2"), ("x", ""), ("n:y", ["p", "q"]), ("n:y", ["p"]), ("n:u", None),
+        "finds": [("n:w", []), ("n:w", ["1"]), ("n:w", ["0"]), ("x", "0"), ("x", "1"), ("x", "2"), ("x", ""), ("n:y", ["p", "q"]), ("n:y", ["p"]), ("n:u", None),
                   ("n:u", "P,Q"), ("x", None), ("zz", "1"), ("n:y", "p,q"), ("n:y", None), ("n", "1"), ("x", 1),
                   ("n:y", ["q", "p"])],
         "gets": ["a", "b", "c", "d", ["a"]],
@@ -61,8 +66,8 @@ FAMILIES = {
                  ("w", 3, [], False, False),
                  ("w:b:c", 2, [("string.add_prefix", "P")], False, False),
                  ("", 2, [], False, True)],
-        "lines": ["a 1", "A 1", "b x", "B  2", "c ", "a ,5", "b 1,5", "c x", "C 01", "", "#", "a 1 ", "c  ,7", "b 2"],
-        "finds": [("v", 1), ("v", "1"), ("v", "x"), ("v", 2), ("w:a", "None"), ("w:a", "5"), ("w", "5"),
+        "lines": ["a 0", "b 00", "c 0", "a 1", "A 1", "b x", "B  2", "c ", "a ,5", "b 1,5", "c x", "C 01", "", "#", "a 1 ", "c  ,7", "b 2"],
+        "finds": [("v", 0), ("v", "0"), ("", "0"), ("w:b:c", "P0"), ("v", 1), ("v", "1"), ("v", "x"), ("v", 2), ("w:a", "None"), ("w:a", "5"), ("w", "5"),
                   ("w:b:c", "P1"), ("w:b:c", "Px"), ("", None), ("", "1"), ("w", None), ("v", None), ("v", [1])],
         "gets": ["a.d", "b.d", "c.d", "a", "A.d"],
     },
@@ -313,6 +318,10 @@ class ParseTap:
     the load and before _update_data returns."""
     def __init__(self):
         self.pending = None
+        self.fault = None        # ("open" | "read", exception class name): one-shot I/O fault
+
+    def arm_fault(self, kind, cls):
+        self.fault = (kind, cls)
 
     def arm(self, fsx, mode, when):
         # An in-place overwrite that makes the file LONGER while it is being iterated would be read as a mix of
@@ -332,8 +341,12 @@ class ParseTap:
             SB.apply(fsx, mode)
 
     def open(self, *a, **kw):
+        if self.fault is not None and self.fault[0] == "open":
+            cls = self.fault[1]
+            self.fault = None
+            raise FAULT_EXC[cls]()
         fh = open(*a, **kw)
-        if self.pending is None:
+        if self.pending is None and self.fault is None:
             return fh
         return _TappedFile(fh, self)
 
@@ -352,12 +365,20 @@ class _TappedFile:
 
     def __iter__(self):
         early = self.tap.pending is not None and self.tap.pending[2] == "first_line"
+        self.read_fault()            # before the first line reaches the parser
         for line in self.fh:
             yield line
             if early:
                 self.tap.fire()
 
+    def read_fault(self):
+        if self.tap.fault is not None and self.tap.fault[0] == "read":
+            cls = self.tap.fault[1]
+            self.tap.fault = None
+            raise FAULT_EXC[cls]()
+
     def read(self, *a):
+        self.read_fault()
         r = self.fh.read(*a)
         if self.tap.pending is not None and self.tap.pending[2] == "first_line":
             self.tap.fire()
@@ -369,6 +390,28 @@ class _TappedFile:
 
 TAP = ParseTap()
 TF.open = TAP.open
+
+
+class _OsProxy:
+    """`os` as seen by vinegar.utils.version: os.stat of the scratch file raises ONE injected exception when armed"""
+    def __init__(self):
+        self.fault = None
+
+    def stat(self, path, *a, **kw):
+        if self.fault is not None and str(path) == SB.path():
+            cls = self.fault
+            self.fault = None
+            raise FAULT_EXC[cls]()
+        return os.stat(path, *a, **kw)
+
+    def __getattr__(self, name):
+        return getattr(os, name)
+
+
+import vinegar.utils.version as _VER      # noqa: E402
+OSP = _OsProxy()
+_VER.os = OSP
+STAT_TOKEN = {"PermissionError": 1010, "OSError": 1011, "BlockingIOError": 1012}
 
 
 def primitive_steps(hist):
@@ -448,6 +491,24 @@ class C14(Check):
         if rng.random() < 0.2:
             return ("cedit", self.random_call(f, rng), stt, mode, rng.choice(["first_line", "exit"]))
         return ("edit", stt) if mode == "replace" else ("edit", stt, mode)
+
+    def with_faults(self, f, rng, h):
+        """turn some calls into calls with an injected fault; a stat-fault class is used at most once per history
+        (its version token must stand for one content only)"""
+        stat_left = ["PermissionError", "OSError", "BlockingIOError"]
+        rng.shuffle(stat_left)
+        out = []
+        for s in h:
+            if s[0] in ("get", "find") and rng.random() < 0.4:
+                kind = rng.choice(["open", "read", "stat"])
+                if kind == "stat" and stat_left:
+                    out.append(("fcall", s, ("stat", stat_left.pop())))
+                    continue
+                if kind != "stat":
+                    out.append(("fcall", s, (kind, rng.choice(["PermissionError", "OSError", "BlockingIOError"]))))
+                    continue
+            out.append(s)
+        return out
 
     def random_call(self, f, rng):
         if rng.random() < 0.45:
@@ -542,6 +603,24 @@ class C14(Check):
                         h.append(("cedit", rng.choice(bat), nxt, mode, when))
                         h.extend(rng.sample(bat, 4))
                         yield dict(fl, fam=fam, init=cur, hist=h, omit=rng.random() < 0.5)
+        # 2e. fault injection on open / read / stat of the file in ONE call of a long-lived source: with a valid
+        #     snapshot the call does not touch the file and answers; otherwise the exception is the result of the
+        #     call, nothing of it is remembered, and the following calls are correct
+        for fam in list(FAMILIES)[:4]:
+            f = FAMILIES[fam]
+            bat = self.battery(f)
+            for fl in self.flags():
+                if (not fl["cache"] and rng.random() < 0.6) or (quick and rng.random() < 0.5):
+                    continue
+                cur = ("text", self.contents(f, rng, rng.choice([1, 2, 3, 4])))
+                nxt = self.random_state(f, rng)
+                h = [rng.choice(bat), rng.choice(bat)]
+                h += [("edit", nxt)] if rng.random() < 0.7 else []
+                h += rng.sample(bat, 3)
+                h += [("edit", self.random_state(f, rng), rng.choice(["replace", "inplace_restore"]))]
+                h += rng.sample(bat, 3)
+                h = self.with_faults(f, rng, h)
+                yield dict(fl, fam=fam, init=cur, hist=h, omit=rng.random() < 0.5)
         # 2d. rewrites between lines whose captured groups differ only in where a '|' falls, and between an
         #     unmatched optional group and the text "None": the data changes, so must the version
         f = FAMILIES["pipes"]
@@ -578,6 +657,8 @@ class C14(Check):
                 cur = h[-1][2] if h[-1][0] == "cedit" else h[-1][1]
             for _c in range(rng.choice([1, 2, 3])):
                 h.append(self.random_call(f, rng))
+            if rng.random() < 0.3:
+                h = self.with_faults(f, rng, h)
             case["hist"] = h
             yield case
 
@@ -590,6 +671,21 @@ class C14(Check):
         for stp in c["hist"]:
             if stp[0] == "edit":
                 SB.apply(stp[1], stp[2] if len(stp) > 2 else "replace")
+                continue
+            if stp[0] == "fcall":
+                # the fresh source answers without the fault; the long-lived source gets ONE injected fault at
+                # open / first read / stat of this call (not consumed if the call does not get that far)
+                b = call_source(TF.get_instance(make_config(c, path)), stp[1])
+                if stp[2][0] == "stat":
+                    OSP.fault = stp[2][1]
+                else:
+                    TAP.arm_fault(stp[2][0], stp[2][1])
+                try:
+                    a = call_source(src, stp[1])
+                finally:
+                    TAP.fault = None
+                    OSP.fault = None
+                out.append([a, b])
                 continue
             if stp[0] == "cedit":
                 # the fresh source answers first (file still unchanged), then the long-lived source with the edit
@@ -647,10 +743,21 @@ class C14(Check):
             ver += 1
             return [ver, enc_fstate(stt)]
         init = fs_sx(c["init"])
+        cur = c["init"]
         for stp in primitive_steps(c["hist"]):
+            if stp[0] == "fcall" and stp[2][0] == "read" and cur[0] == "missing":
+                stp = stp[1]        # open() fails first: the read fault cannot happen, an ordinary call
             if stp[0] == "edit":
+                cur = stp[1]
                 v, fx = fs_sx(stp[1])
                 steps.append([0, v, fx])
+            elif stp[0] == "fcall":
+                cl = stp[1]
+                clx = [1, enc_val(cl[1])] if cl[0] == "get" else [2, cl[1], enc_val(cl[2])]
+                if stp[2][0] == "stat":
+                    steps.append([3, clx, [1, STAT_TOKEN[stp[2][1]]]])
+                else:
+                    steps.append([3, clx, [0, ERR[stp[2][1]]]])
             elif stp[0] == "get":
                 steps.append([1, enc_val(stp[1])])
             else:
@@ -679,7 +786,8 @@ class C14(Check):
                 "config": {k: c[k] for k in ("cache", "ffm", "mis", "dup")}, "defaults_omitted": bool(c.get("omit")),
                 "regular_expression": fam_of(c)["re"], "regular_expression_ignore": fam_of(c)["ign"],
                 "system_id": repr(fam_of(c)["sid"]), "variables": [repr(v) for v in fam_of(c)["vars"]],
-                "init": list(c["init"]), "hist": [(["call-with-edit-during-parse", list(s[1]), list(s[2]), s[3], s[4]] if s[0] == "cedit" else
+                "init": list(c["init"]), "hist": [(["call-with-injected-fault", list(s[1]), list(s[2])] if s[0] == "fcall" else
+                                                   ["call-with-edit-during-parse", list(s[1]), list(s[2]), s[3], s[4]] if s[0] == "cedit" else
                                                    list(s) if s[0] != "edit" else ["edit", list(s[1])] + list(s[2:])) for s in c["hist"]]}
 
     def shrink(self, c):
@@ -701,6 +809,21 @@ class C14(Check):
             if stp[0] == "edit":
                 for s2 in smaller(stp[1]):
                     yield dict(c, hist=h[:i] + [("edit", s2) + tuple(stp[2:])] + h[i + 1:])
+            if stp[0] == "fcall":
+                # the fresh source answers without the fault; the long-lived source gets ONE injected fault at
+                # open / first read / stat of this call (not consumed if the call does not get that far)
+                b = call_source(TF.get_instance(make_config(c, path)), stp[1])
+                if stp[2][0] == "stat":
+                    OSP.fault = stp[2][1]
+                else:
+                    TAP.arm_fault(stp[2][0], stp[2][1])
+                try:
+                    a = call_source(src, stp[1])
+                finally:
+                    TAP.fault = None
+                    OSP.fault = None
+                out.append([a, b])
+                continue
             if stp[0] == "cedit":
                 for s2 in smaller(stp[2]):
                     yield dict(c, hist=h[:i] + [("cedit", stp[1], s2) + tuple(stp[3:])] + h[i + 1:])
